@@ -63,8 +63,16 @@ fn main() {
 		if !overlap {
 			// no commit in flight: the writer waits between two commits
 			pause.store(true, Ordering::SeqCst);
+			let w0 = std::time::Instant::now();
 			while !paused.load(Ordering::SeqCst) && !stop.load(Ordering::SeqCst) {
 				std::thread::sleep(std::time::Duration::from_micros(100));
+				if w0.elapsed() > std::time::Duration::from_secs(60) {
+					sum.violation(json!({"kind":"commit_never_returns","acknowledged":acked.load(Ordering::SeqCst),"checkpoints":n,
+						"detail":"the committer did not come back from commit() within 60 s (both background tasks idle?)"}));
+					sum.cases = ckpts.len() as u64;
+					sum.print();
+					std::process::exit(0);
+				}
 			}
 		}
 		let lo = acked.load(Ordering::SeqCst);
@@ -74,6 +82,18 @@ fn main() {
 		}
 		pause.store(false, Ordering::SeqCst);
 		std::thread::sleep(std::time::Duration::from_millis(1));
+	}
+	// (a writer that never comes back is a violation, not a hung tool)
+	let t0 = std::time::Instant::now();
+	while !writer.is_finished() && t0.elapsed() < std::time::Duration::from_secs(60) {
+		std::thread::sleep(std::time::Duration::from_millis(50));
+	}
+	if !writer.is_finished() {
+		sum.violation(json!({"kind":"commit_never_returns","acknowledged":acked.load(Ordering::SeqCst),"checkpoints":n,
+			"detail":"the committer is still inside commit() 60 s after the last checkpoint"}));
+		sum.cases = ckpts.len() as u64;
+		sum.print();
+		std::process::exit(0);
 	}
 	let werr = writer.join().unwrap();
 	if let Some(e) = werr {
